@@ -17,6 +17,7 @@ type wgSpec struct {
 	rule      string
 	aspects   map[string]bool
 	opts      gen.GraphOpts
+	altOpts   *gen.GraphOpts // a second profile, used for a third of the cases
 	maxExh    int
 	nRand     int
 	builds    int
@@ -62,6 +63,9 @@ var wgSpecs = map[string]*wgSpec{
 			"must wrap one of the three sentinel errors. Non-trivial = the model has at least one cycle of any kind; distinct by model content. Bounded exhaustive part: a small universe (user; doc with p:[doc] and relations a, b each defined by one of 8 leaf forms or a binary operator over two of them: 200 x 200 = 40 000 models) under ALL DFS start orders; quick enumerates every 16th model, thorough the complete universe split over the 16 processes.",
 		aspects: map[string]bool{"verdict": true},
 		opts:    gen.GraphOpts{MultiThis: true, Hazards: true, CycleBoost: true, Names: true, Deep: true, Depth3: true},
+		// "every well-founded model is accepted" needs well-founded models: a third of the cases come from the
+		// acceptance-oriented profile of C04 (interlocking tuple cycles, no hazards)
+		altOpts: &gen.GraphOpts{MultiThis: true, DupRestr: true, Interlock: true, Names: true, Deep: true, Depth3: true},
 		maxExh:  6, nRand: 24, builds: 6,
 		nontriv: func(res *wgResult, m *gen.Model) bool { return res.G.Err == "" && res.G.HasAnyCycle() },
 		require: map[string]float64{"model:has-cycle": 0.25, "spec:accepted": 0.08, "spec:rejected:tuple-free-rewrite-cycle": 0.05,
@@ -198,7 +202,19 @@ func wgRun(t *testing.T, sp *wgSpec) {
 		for idx := ev.Shard() + int(ev.Seed()%int64(twinStride))*ev.Shards(); idx < wgTwinCount; idx += ev.Shards() * twinStride {
 			idxs = append(idxs, idx)
 		}
-		for idx := wgTwinCount + ev.Shard() + int(ev.Seed()%int64(stride))*ev.Shards(); idx < total; idx += ev.Shards() * stride {
+		cousinEnd := wgTwinCount + wgCousinCount
+		for idx := wgTwinCount + ev.Shard() + int(ev.Seed()%int64(stride))*ev.Shards(); idx < cousinEnd; idx += ev.Shards() * stride {
+			idxs = append(idxs, idx)
+		}
+		// mixed operand counts (every 16th / every 2nd) and the cycle-observer family (every 4th / all)
+		mixedStride, obsStride := 16, 4
+		if ev.Thorough() {
+			mixedStride, obsStride = 2, 1
+		}
+		for idx := cousinEnd + ev.Shard() + int(ev.Seed()%int64(mixedStride))*ev.Shards(); idx < cousinEnd+wgMixedCount; idx += ev.Shards() * mixedStride {
+			idxs = append(idxs, idx)
+		}
+		for idx := cousinEnd + wgMixedCount + ev.Shard() + int(ev.Seed()%int64(obsStride))*ev.Shards(); idx < total; idx += ev.Shards() * obsStride {
 			idxs = append(idxs, idx)
 		}
 		for _, idx := range idxs {
@@ -231,6 +247,9 @@ func wgRun(t *testing.T, sp *wgSpec) {
 	}
 	rapid.Check(t, func(rt *rapid.T) {
 		opts := sp.opts
+		if sp.altOpts != nil && rapid.IntRange(0, 2).Draw(rt, "profile") == 0 {
+			opts = *sp.altOpts
+		}
 		if ev.Thorough() && rapid.IntRange(0, 3).Draw(rt, "big") == 0 {
 			opts.Big = true
 		}
